@@ -314,7 +314,7 @@ package core
 
 //@ func SRespCodec.Decode
 //@   props C02 C03 C07 C11 C13
-//@   modifies codec.buffer.r, codec.buffer.buf, inq(s).head, inq(s).tail, inq(s).count, Frag.next, Frag.prev
+//@   modifies codec.buffer.r, codec.buffer.buf, inq(s).head, inq(s).tail, inq(s).count, Frag.next, Frag.prev, Frag.intree
 //@   modifies inq(s).head.Type, inq(s).head.RspBody, capmem(inq(s).head.RspBody)
 //@   modifies conn.buffer, ring.Buffer.r, ring.Buffer.w, ring.Buffer.isEmpty, elastic.RingBuffer.rb
 //@   requires s != nil && inq(s) != nil && fwf(inq(s))
@@ -339,7 +339,7 @@ package core
 //@ define spliterrc(c, f) = f.RspBody[0] == '-' && len(f.RspBody) <= EngineGlobal.sCodec.MsgMaxLength && old(hd(c).Error) == "" && split(f.Peer)
 //@ func conn.sread
 //@   props C02 C03 C07 C11 C13 C16
-//@   modifies codec.buffer.r, codec.buffer.buf, c.inFragQueue.head, c.inFragQueue.tail, c.inFragQueue.count, Frag.next, Frag.prev
+//@   modifies codec.buffer.r, codec.buffer.buf, c.inFragQueue.head, c.inFragQueue.tail, c.inFragQueue.count, Frag.next, Frag.prev, Frag.intree
 //@   modifies hd(c).Type, hd(c).RspBody, capmem(hd(c).RspBody), hd(c).Error, hd(c).Rsp, hd(c).Ok, Frag.Done
 //@   modifies conn.buffer, ring.Buffer.r, ring.Buffer.w, ring.Buffer.isEmpty, elastic.RingBuffer.rb, c.initStatus
 //@   modifies hd(c).Peer.FragDoneNumber, hd(c).Peer.DelNum, hd(c).Peer.Done, hd(c).Peer.Error, hd(c).Peer.RspBody, capmem(hd(c).Peer.RspBody)
